@@ -1,7 +1,7 @@
 /-
   C19 — the chat prompt keeps the newest messages that fit, system messages, each image once.
 
-  All theorems are about `Prompt.chatPrompt cfg cost msgs` for EVERY configuration `cfg`
+  All theorems are about `Prompt.chatPrompt cfg cost bad msgs` for EVERY configuration `cfg`
   (variant, mllama, projector, context length), EVERY cost function `cost : Nat → Nat`
   (= every template and tokenizer) and EVERY conversation `msgs`.  An `.ok q n sys ret imgs`
   outcome means: `q` tokenizer calls were made, the final `Template.Execute` receives
@@ -12,19 +12,20 @@ import OllamaVerif.Proofs.Prompt
 namespace OllamaVerif.C19
 open OllamaVerif OllamaVerif.Prompt
 
-variable {cfg : Cfg} {cost : Nat → Nat} {msgs : List Msg}
+variable {cfg : Cfg} {cost : Nat → Nat} {bad : Nat → Bool} {msgs : List Msg}
   {q n : Nat} {sys ret : List Msg} {imgs : List ImgOut}
 
 /-- decomposition of a successful call -/
-theorem ok_inv (h : chatPrompt cfg cost msgs = .ok q n sys ret imgs) :
+theorem ok_inv (h : chatPrompt cfg cost bad msgs = .ok q n sys ret imgs) :
     ∃ s, 0 < msgs.length ∧
-      scan cfg cost msgs (msgs.length - 1) (msgs.length - 1) none 0 = .done n s q ∧
+      scan cfg cost bad msgs (msgs.length - 1) (msgs.length - 1) none 0 = .done n s q ∧
       rewriteAll cfg (msgs.drop n) [] = .ok (ret, imgs) ∧ sys = finalSystem cfg msgs n s := by
   unfold chatPrompt at h
   split at h
   · cases h
   · rename_i m ms
     split at h
+    · cases h
     · cases h
     · rename_i n' s' q' hs
       split at h
@@ -35,17 +36,17 @@ theorem ok_inv (h : chatPrompt cfg cost msgs = .ok q n sys ret imgs) :
         refine ⟨s', by simp, ?_, hr, rfl⟩
         have : (m :: ms).length = ms.length + 1 := by simp
         rw [this] at hs ⊢
-        exact scan_start cfg cost (m :: ms) ms.length _ _ _ hs
+        exact scan_start cfg cost bad (m :: ms) ms.length _ _ _ hs
 
-theorem start_lt (h : chatPrompt cfg cost msgs = .ok q n sys ret imgs) : n < msgs.length := by
+theorem start_lt (h : chatPrompt cfg cost bad msgs = .ok q n sys ret imgs) : n < msgs.length := by
   obtain ⟨s, hpos, hs, _, _⟩ := ok_inv h
-  have := (scan_diag cfg cost msgs _ _ _ _ _ _ hs).1
+  have := (scan_diag cfg cost bad msgs _ _ _ _ _ _ hs).1
   omega
 
 /-- **Retained messages are a suffix of the conversation, in the original order.**  `ret`
     corresponds message by message to `msgs.drop n`: same role, same images, same literal text
     (only `[img]` placeholders, `[img-k]` tags and the mllama marker differ). -/
-theorem retained_is_suffix_in_order (h : chatPrompt cfg cost msgs = .ok q n sys ret imgs) :
+theorem retained_is_suffix_in_order (h : chatPrompt cfg cost bad msgs = .ok q n sys ret imgs) :
     AllSame (msgs.drop n) ret := by
   obtain ⟨s, _, _, hr, _⟩ := ok_inv h
   exact (rewriteAll_inv cfg _ _ _ _ hr).1
@@ -65,7 +66,7 @@ theorem AllSame.getLast {a b : List Msg} (h : AllSame a b) (hne : a ≠ []) :
 
 /-- **The latest message is always kept**: the cut index is a valid index, and the last message
     handed to the template is the (rewritten) last message of the conversation. -/
-theorem latest_kept (h : chatPrompt cfg cost msgs = .ok q n sys ret imgs) :
+theorem latest_kept (h : chatPrompt cfg cost bad msgs = .ok q n sys ret imgs) :
     n < msgs.length ∧
     ∃ m m', msgs.getLast? = some m ∧ ret.getLast? = some m' ∧ SameMsg m m' := by
   have hlt := start_lt h
@@ -84,16 +85,16 @@ theorem latest_kept (h : chatPrompt cfg cost msgs = .ok q n sys ret imgs) :
     and either everything was kept or the next longer suffix does not fit:
     the retained run is the longest suffix all of whose shorter suffixes fit (only the latest
     message if `msgs[L-2:]` already does not fit).  The latest message alone is never measured. -/
-theorem retained_first_failure (h : chatPrompt cfg cost msgs = .ok q n sys ret imgs) :
+theorem retained_first_failure (h : chatPrompt cfg cost bad msgs = .ok q n sys ret imgs) :
     (∀ j, n ≤ j → j + 1 < msgs.length → fits cfg cost msgs j = true) ∧
     (n = 0 ∨ fits cfg cost msgs (n - 1) = false) := by
   obtain ⟨s, _, hs, _, _⟩ := ok_inv h
-  obtain ⟨_, h2, h3, _, _⟩ := scan_diag cfg cost msgs _ _ _ _ _ _ hs
+  obtain ⟨_, h2, h3, _, _⟩ := scan_diag cfg cost bad msgs _ _ _ _ _ _ hs
   exact ⟨fun j h1 hj => h2 j h1 (by omega), h3⟩
 
 /-- **For a cost that is monotone in suffix extension the retained run is the longest suffix
     that fits**: a measured suffix `msgs[j:]` fits iff it is retained. -/
-theorem retained_longest_fitting (h : chatPrompt cfg cost msgs = .ok q n sys ret imgs)
+theorem retained_longest_fitting (h : chatPrompt cfg cost bad msgs = .ok q n sys ret imgs)
     (hmono : ∀ i j, i ≤ j → j + 1 < msgs.length →
       total cfg cost msgs j ≤ total cfg cost msgs i) :
     ∀ j, j + 1 < msgs.length → (fits cfg cost msgs j = true ↔ n ≤ j) := by
@@ -118,10 +119,10 @@ theorem retained_longest_fitting (h : chatPrompt cfg cost msgs = .ok q n sys ret
 
 /-- number of tokenizer calls: one per retained message beyond the latest, plus the one that
     failed (if any) -/
-theorem tokenizer_calls (h : chatPrompt cfg cost msgs = .ok q n sys ret imgs) :
+theorem tokenizer_calls (h : chatPrompt cfg cost bad msgs = .ok q n sys ret imgs) :
     q = (msgs.length - 1 - n) + (if n = 0 then 0 else 1) := by
   obtain ⟨s, _, hs, _, _⟩ := ok_inv h
-  have := scan_diag_evals cfg cost msgs _ _ _ _ _ _ hs
+  have := scan_diag_evals cfg cost bad msgs _ _ _ _ _ _ hs
   omega
 
 theorem countTag_flatMap_zero (k : Nat) (l : List Msg)
@@ -137,7 +138,7 @@ theorem countTag_flatMap_zero (k : Nat) (l : List Msg)
     position `k` is `k`; and the rewritten contents handed to the template contain the tag
     `[img-k]` exactly once for every returned image and no other tag.
     Hypothesis (recorded assumption): the incoming contents contain no `[img-k]` tag. -/
-theorem images_once_indexed (h : chatPrompt cfg cost msgs = .ok q n sys ret imgs)
+theorem images_once_indexed (h : chatPrompt cfg cost bad msgs = .ok q n sys ret imgs)
     (hno : ∀ m ∈ msgs, ∀ k, countTag k m.content = 0) :
     imgs.map (·.src) = (msgs.drop n).flatMap (fun m => m.images.map (·.src)) ∧
     (∀ k (hk : k < imgs.length), (imgs[k]).id = k) ∧
@@ -153,7 +154,7 @@ theorem images_once_indexed (h : chatPrompt cfg cost msgs = .ok q n sys ret imgs
 /-- **Each tag sits in the message that owns the image**: walking the retained messages with
     `b` = number of images returned so far, the rewrite adds to a message's content exactly one
     tag `[img-k]` for every `k` in `[b, b + #images of that message)` and nothing else. -/
-theorem tags_in_owner (h : chatPrompt cfg cost msgs = .ok q n sys ret imgs) :
+theorem tags_in_owner (h : chatPrompt cfg cost bad msgs = .ok q n sys ret imgs) :
     Owned 0 (msgs.drop n) ret := by
   obtain ⟨s, _, _, hr, _⟩ := ok_inv h
   exact rewriteAll_owned cfg _ _ _ _ hr
@@ -161,7 +162,7 @@ theorem tags_in_owner (h : chatPrompt cfg cost msgs = .ok q n sys ret imgs) :
 /-- **Images of dropped messages are not sent**: every returned image is an image of a retained
     message; and if the sources of dropped and retained images are different, no image of a
     dropped message is returned. -/
-theorem dropped_images_not_sent (h : chatPrompt cfg cost msgs = .ok q n sys ret imgs) :
+theorem dropped_images_not_sent (h : chatPrompt cfg cost bad msgs = .ok q n sys ret imgs) :
     (∀ o ∈ imgs, ∃ m ∈ msgs.drop n, ∃ im ∈ m.images, im.src = o.src) ∧
     ((∀ m ∈ msgs.take n, ∀ im ∈ m.images, ∀ m2 ∈ msgs.drop n, ∀ im2 ∈ m2.images,
         im.src ≠ im2.src) →
@@ -182,10 +183,10 @@ theorem dropped_images_not_sent (h : chatPrompt cfg cost msgs = .ok q n sys ret 
 
 /-- what the pinned code passes as system messages: those before index `n - 1`, i.e. the
     slice computed for the iteration that broke -/
-theorem system_pinned_exact (h : chatPrompt cfg cost msgs = .ok q n sys ret imgs)
+theorem system_pinned_exact (h : chatPrompt cfg cost bad msgs = .ok q n sys ret imgs)
     (hv : cfg.fixed = false) : sys = systemsBefore msgs (n - 1) := by
   obtain ⟨s, _, hs, _, hsys⟩ := ok_inv h
-  obtain ⟨h1, _, _, h4, h5⟩ := scan_diag cfg cost msgs _ _ _ _ _ _ hs
+  obtain ⟨h1, _, _, h4, h5⟩ := scan_diag cfg cost bad msgs _ _ _ _ _ _ hs
   subst hsys
   simp only [finalSystem, hv]
   by_cases hk : msgs.length - 1 = 0
@@ -198,7 +199,7 @@ theorem system_pinned_exact (h : chatPrompt cfg cost msgs = .ok q n sys ret imgs
 
 /-- **System messages, repaired variant**: exactly the system messages that precede the
     retained run are passed to the template, in order. -/
-theorem system_kept_fixed (h : chatPrompt cfg cost msgs = .ok q n sys ret imgs)
+theorem system_kept_fixed (h : chatPrompt cfg cost bad msgs = .ok q n sys ret imgs)
     (hv : cfg.fixed = true) :
     sys = systemsBefore msgs n ∧
     ∀ m ∈ msgs.take n, m.role = Role.system → m ∈ sys := by
@@ -212,7 +213,7 @@ theorem system_kept_fixed (h : chatPrompt cfg cost msgs = .ok q n sys ret imgs)
 /-- **System messages, pinned code (partial)**: the statement holds under the decidable guard
     "nothing was dropped, or the message just before the retained run is not a system message".
     What is missing: the system message AT the cut (finding F4, witness below). -/
-theorem system_kept_partial (h : chatPrompt cfg cost msgs = .ok q n sys ret imgs)
+theorem system_kept_partial (h : chatPrompt cfg cost bad msgs = .ok q n sys ret imgs)
     (hv : cfg.fixed = false)
     (hguard : n = 0 ∨ ∀ m, msgs[n - 1]? = some m → m.role ≠ Role.system) :
     sys = systemsBefore msgs n ∧
@@ -241,7 +242,7 @@ theorem system_kept_partial (h : chatPrompt cfg cost msgs = .ok q n sys ret imgs
     `Execute` is — up to the image rewrite — exactly `system(n) ++ msgs[n:]`, the argument of
     `cost n`, and that measurement fit the context length.  (On the pinned code the final list
     can lack a system message that was part of the measured one.) -/
-theorem measured_prompt_fits_fixed (h : chatPrompt cfg cost msgs = .ok q n sys ret imgs)
+theorem measured_prompt_fits_fixed (h : chatPrompt cfg cost bad msgs = .ok q n sys ret imgs)
     (hv : cfg.fixed = true) (hn : n + 1 < msgs.length) :
     sys = systemsBefore msgs n ∧ AllSame (msgs.drop n) ret ∧ fits cfg cost msgs n = true :=
   ⟨(system_kept_fixed h hv).1, retained_is_suffix_in_order h,
@@ -272,26 +273,57 @@ def f4cost : Nat → Nat := fun i => [5, 2].getD i 0
 /-- **Witness of F4**: context length 1.  The pinned code passes NO system message although
     `SYS` precedes the retained run `[hi]`; the repaired variant passes it. -/
 theorem F4_system_at_cut_dropped :
-    chatPrompt ⟨false, false, 0, 1⟩ f4cost f4conv
+    chatPrompt ⟨false, false, 0, 1⟩ f4cost (fun _ => false) f4conv
       = .ok 1 2 [] [⟨.user, txt bHi, []⟩] [] ∧
-    chatPrompt ⟨true, false, 0, 1⟩ f4cost f4conv
+    chatPrompt ⟨true, false, 0, 1⟩ f4cost (fun _ => false) f4conv
       = .ok 1 2 [⟨.system, txt bSYS, []⟩] [⟨.user, txt bHi, []⟩] [] ∧
     systemsBefore f4conv 2 = [⟨.system, txt bSYS, []⟩] := by decide
 
-/-- the same through the modelled legacy template: prompt `"hi "` vs `"SYS hi "` -/
+/-- the legacy template of prompt_test.go as `template.Parse` delivers it (leading newline
+    trimmed): `{{if .System}}{{.System}} {{end}}{{if .Prompt}}{{.Prompt}} {{end}}{{if .Response}}{{.Response}} {{end}}` -/
+def tLegacy : List Node :=
+  [.ite (.field .system) [.action (.field .system), .text [32]] false [],
+   .ite (.field .prompt) [.action (.field .prompt), .text [32]] false [],
+   .ite (.field .response) [.action (.field .response), .text [32]] false []]
+
+/-- the pinned template layer -/
+def tv0 : TVar := ⟨0, false⟩
+
+/-- the same through the modelled `Template.Execute`: prompt `"hi "` vs `"SYS hi "` -/
 example :
-    render false 1 (([⟨.user, txt bHi, []⟩] : List Msg).map toRMsg) = bHi ++ [32] ∧
-    render false 1 (([⟨.system, txt bSYS, []⟩, ⟨.user, txt bHi, []⟩] : List Msg).map toRMsg)
-      = bSYS ++ [32] ++ bHi ++ [32] := by decide
+    execute tv0 tLegacy (([⟨.user, txt bHi, []⟩] : List Msg).map toRMsg) = .ok (bHi ++ [32]) ∧
+    execute tv0 tLegacy (([⟨.system, txt bSYS, []⟩, ⟨.user, txt bHi, []⟩] : List Msg).map toRMsg)
+      = .ok (bSYS ++ [32] ++ bHi ++ [32]) := by decide
 
 /-- **Witness of F4b (legacy template loop)**: `[user "hi", assistant "", user "SYS"]` (any
     three byte strings do) rendered by the legacy template: the pinned loop overwrites the
-    pending prompt `hi`; the repaired loop flushes it first. -/
+    pending prompt `hi`; the flush repair renders it as its own turn; the join repair keeps it
+    in the same turn, separated by a blank line as `collate` would. -/
 theorem F4b_legacy_overwrite :
-    render false 1 [(.user, bHi), (.assistant, []), (.user, bSYS)] = bSYS ++ [32] ∧
-    render true 1 [(.user, bHi), (.assistant, []), (.user, bSYS)] = bHi ++ [32] ++ bSYS ++ [32] ∧
-    render false 1 [(.user, bHi), (.tool, bLong), (.user, bSYS)] = bSYS ++ [32] ∧
-    render true 1 [(.user, bHi), (.tool, bLong), (.user, bSYS)] = bHi ++ [32] ++ bSYS ++ [32] := by
+    execute ⟨0, false⟩ tLegacy [(.user, bHi), (.assistant, []), (.user, bSYS)] = .ok (bSYS ++ [32]) ∧
+    execute ⟨1, false⟩ tLegacy [(.user, bHi), (.assistant, []), (.user, bSYS)]
+      = .ok (bHi ++ [32] ++ bSYS ++ [32]) ∧
+    execute ⟨2, false⟩ tLegacy [(.user, bHi), (.assistant, []), (.user, bSYS)]
+      = .ok (bHi ++ [10, 10] ++ bSYS ++ [32]) ∧
+    execute ⟨0, false⟩ tLegacy [(.user, bHi), (.tool, bLong), (.user, bSYS)] = .ok (bSYS ++ [32]) ∧
+    execute ⟨2, false⟩ tLegacy [(.user, bHi), (.tool, bLong), (.user, bSYS)]
+      = .ok (bHi ++ [10, 10] ++ bSYS ++ [32]) := by
+  decide
+
+/-- a legacy template whose `.Response` sits in an `if` WITH an `else` branch:
+    `{{ .Prompt }}{{ if .System }}{{ .Response }}{{ else }}x{{ end }}` -/
+def tElse : List Node :=
+  [.action (.field .prompt),
+   .ite (.field .system) [.action (.field .response)] true [.text [120]]]
+
+/-- **Witness of F4c**: on the pinned code every `Execute` of such a template panics in
+    `deleteNode` (the else-list is visited after the cut); the repaired `deleteNode` drops the
+    else-list and the prompt is rendered. -/
+theorem F4c_cut_else_panics :
+    execute ⟨0, false⟩ tElse [(.user, bHi)] = .err .panicCut ∧
+    execute ⟨0, true⟩ tElse [(.user, bHi)] = .ok bHi ∧
+    chatPromptT ⟨true, false, 0, 100⟩ ⟨0, false⟩ tElse 0 [⟨.user, txt bHi, []⟩]
+      = .tmplErr .panicCut := by
   decide
 
 /-- non-vacuity: an `.ok` outcome with dropped messages, a kept system message, images renumbered
@@ -304,7 +336,7 @@ def nvconv : List Msg :=
    ⟨.user, [Piece.lit [97], Piece.slot, Piece.lit [98]], [⟨2, true⟩, ⟨3, true⟩]⟩]
 
 example :
-    chatPrompt ⟨false, false, 2, 1600⟩ (fun i => [9, 8, 5].getD i 0) nvconv
+    chatPrompt ⟨false, false, 2, 1600⟩ (fun i => [9, 8, 5].getD i 0) (fun _ => false) nvconv
       = .ok 2 2 [⟨.system, txt [83], []⟩]
           [⟨.assistant, txt [114, 101], []⟩,
            ⟨.user, [Piece.tag 1, Piece.lit [97], Piece.tag 0, Piece.lit [98]], [⟨2, true⟩, ⟨3, true⟩]⟩]
